@@ -307,3 +307,30 @@ func SortedKeys(m map[string]int) []string {
 	sort.Strings(ks)
 	return ks
 }
+
+// ---------------------------------------------------------------- breadcrumbs
+
+// Crumb records the case that is about to be executed in-process (path from VERIF_CRUMB). When the
+// implementation ends the process (log.Fatal, fatal runtime error) the parent of the check binary
+// reads the last crumb and reports that case as the input on which the run died.
+var crumbFile *os.File
+
+func Crumb(class string, payload interface{}) {
+	path := os.Getenv("VERIF_CRUMB")
+	if path == "" {
+		return
+	}
+	if crumbFile == nil {
+		f, err := os.OpenFile(path, os.O_CREATE|os.O_RDWR|os.O_TRUNC, 0o644)
+		if err != nil {
+			return
+		}
+		crumbFile = f
+	}
+	b, err := json.Marshal(map[string]interface{}{"class": class, "case": payload})
+	if err != nil {
+		b, _ = json.Marshal(map[string]interface{}{"class": class, "case": fmt.Sprint(payload)})
+	}
+	crumbFile.Truncate(0)
+	crumbFile.WriteAt(b, 0)
+}
